@@ -224,6 +224,15 @@ func (u *Universe) includeChains() {
 	two := u.Record("RTwoInc", []*Type{inc2, u.ByName["RecSmall"]}, Req("y", P(String)))
 	nested := u.Record("RNestInc", nil, Req("n", top), Opt("no", only), Req("arr", ArrayOf(top)))
 	u.Wrappers = append(u.Wrappers, inc2, inc1, top, only, two, nested)
+	// records without fields of their own: everything they carry is inherited
+	pure1 := u.Record("RPureInc", []*Type{inc1})
+	pure2 := u.Record("RPureTwoInc", []*Type{inc2, u.ByName["RecSmall"]})
+	holder := u.Record("RPureHolder", nil, Req("p", pure1), Opt("ps", ArrayOf(pure2)), Req("z", P(Int32)))
+	u.Wrappers = append(u.Wrappers, pure1, pure2, holder)
+	// a record without required fields of its own around records that have some
+	small := u.ByName["RecSmall"]
+	optOuter := u.Record("ROptOuter", nil, Opt("o", small), Opt("arr", ArrayOf(small)), Opt("m", MapOf(small)), Def("d", P(Int32), "4"))
+	u.Wrappers = append(u.Wrappers, optOuter)
 	// include fans: several siblings including the same record, over bases with 2 and 3 required
 	// fields (shared required-field tables, defaults and partial-update helpers must not alias)
 	for _, n := range []int{2, 3} {
